@@ -46,7 +46,7 @@ impl<const N: usize> Context<N> {
         }
         #[cfg(octo_verif)]
         crate::verif::sync_point("check.before");
-        match self.nonce_cache.try_lock() {
+        match self.nonce_cache.lock() {
             #[cfg(octo_verif)]
             Ok(_) if crate::verif::at("check.locked") => unreachable!(),
             #[cfg(octo_verif)]
@@ -56,15 +56,19 @@ impl<const N: usize> Context<N> {
         }
     }
 
-    pub fn set_nonce(&self, nonce: [u8; N]) {
+    /// Remembers the nonce; returns `false` if it is already known (a concurrent copy got there first).
+    pub fn set_nonce(&self, nonce: [u8; N]) -> bool {
         #[cfg(octo_verif)]
         crate::verif::sync_point("set.before");
-        if let Ok(mut set) = self.nonce_cache.try_lock() {
+        if let Ok(mut set) = self.nonce_cache.lock() {
             #[cfg(octo_verif)]
             crate::verif::at("set.locked");
-            set.insert(nonce, ());
+            let fresh = set.insert(nonce, ()).is_none();
             #[cfg(octo_verif)]
             crate::verif::emit("set.done", "");
+            fresh
+        } else {
+            false
         }
     }
 }
@@ -219,7 +223,9 @@ impl<const N: usize> AEADCipherCodec<N> {
         };
         let length = header.get_u16() as usize;
         if _src.remaining() >= length + tag_size {
-            context.set_nonce(salt);
+            if !context.set_nonce(salt) {
+                bail!("detected repeated nonce salt {:?}", salt);
+            }
             let position = _src.position();
             let src = _src.into_inner();
             src.advance(position as usize);
